@@ -530,8 +530,36 @@ func (g *ExprGen) gen(want, cur *Ty, depth int) *Expr {
 	if g.w(g.b.Fail) && depth > 0 {
 		return g.failing(cur, depth)
 	}
+	if g.w(g.b.Let) && g.r.P(1, 3) {
+		// shadowing pattern: a binding that refers to a name its own let also
+		// (re)defines must see the OUTER value, whatever order the bindings are
+		// evaluated in
+		g.nvar++
+		x := "v" + strconv.Itoa(g.nvar%5)
+		y := "w" + strconv.Itoa(g.nvar%3)
+		outer := &Expr{K: KLet, Keys: []string{x}}
+		outer.C = append(outer.C, g.gen(want, cur, depth+1))
+		inner := &Expr{K: KLet, Keys: []string{x, y}}
+		inner.C = append(inner.C, g.gen(want, cur, depth+2), &Expr{K: KVar, S: x})
+		if g.r.P(2, 3) {
+			inner.Keys = append(inner.Keys, "z"+strconv.Itoa(g.r.Intn(3)))
+			inner.C = append(inner.C, g.gen(g.anyTy(), cur, depth+2))
+		}
+		if g.r.P(1, 3) {
+			// reorder the bindings in the text
+			inner.Keys[0], inner.Keys[1] = inner.Keys[1], inner.Keys[0]
+			inner.C[0], inner.C[1] = inner.C[1], inner.C[0]
+		}
+		var body *Expr = &Expr{K: KVar, S: y}
+		if g.r.P(1, 2) {
+			body = &Expr{K: KList, C: []*Expr{{K: KVar, S: y}, {K: KVar, S: x}}}
+		}
+		inner.C = append(inner.C, body)
+		outer.C = append(outer.C, inner)
+		return outer
+	}
 	if g.w(g.b.Let) {
-		n := 1 + g.r.Intn(2)
+		n := 1 + g.r.Intn(3)
 		le := &Expr{K: KLet}
 		saved := g.vars
 		var added []fld
